@@ -26,6 +26,8 @@ Result run_scn(Scn const& sc, bool with_nat, Ctx* ctx)
 	auto fail = [&](std::string const& s) { R.fails.push_back(s); };
 	World w;
 	std::string ext = EXT[sc.ext];
+	// the path MTU belongs to the two real endpoints: a configuration that answers something else for the NATs' own addresses must make no difference
+	w.mtu = [ext](ip::address a, ip::address b) { auto is = [&](std::string const& x) { return a == addr(x.c_str()) || b == addr(x.c_str()); }; return (is(ext) || is(SEXT)) ? 600 : 1475; };
 	w.on_build = [&](World& ww, sim::simulation&) {
 		auto net = sc.lossy ? ww.queue(400000, ms(20), 4000) : ww.queue(0, ms(20), 0);
 		ww.chan = [net](ip::address, ip::address) { return World::hops_t{ net }; };
